@@ -59,6 +59,10 @@ CHECKS = {
          "History + executable model on the REAL ConnectionSet/PortSet types (alias export): random operation programs over a pool of live values, after every step every value is compared with a three-bitset model, operands are checked unmodified, alias probes (incl. the in-place port mutators) must not show through other values, canonicity/Equal/String/ContainedIn are checked; named-port values only for the clauses the statement makes. Held on the K programs in the evidence.",
          "Operand space = values reachable from MakeConnectionSet and single-protocol sets through the listed operations.",
          "runtime monitoring: operation histories on live values checked against an executable set model", "DESIGN.md §5 C11"),
+ 'C12': ('exploration',
+         "The Go runtime's own checks (nil dereference, bounds, type assertion, stack exhaustion) are the sanitizer; the monitor observes them at the boundary (recover() around every library call, journalled worker processes, exit status and stderr of the binary, watchdog). Workload: the exhaustive list of single structural mutations of 25 base documents, sampled multi-mutations, byte-level mutations, run through list, list --exposure, diff both ways, the eval engine (insert, query, delete) and the binary; the thorough tier repeats a slice under a -race (checkptr) build. Held on the K mutated inputs in the evidence.",
+         "Every crash is visible to recover(), the journal or the child's exit status; watchdog 180 s per case.",
+         "runtime monitoring: crash/termination monitor (runtime checks as sanitizer) over structural input mutation", "DESIGN.md §5 C12"),
 }
 
 NOT_YET = "check not built yet (construction in progress, see DESIGN.md section 9)"
